@@ -12,7 +12,9 @@ from corankco.algorithms.bioconsert.bioconsert import BioConsert
 from corankco.element import Element
 from corankco.ranking import Ranking
 from corankco.algorithms.pairwisebasedalgorithm import PairwiseBasedAlgorithm
+from corankco.algorithms.exact import exactalgorithmcplex
 from corankco.algorithms.exact.exactalgorithmcplexforpaperoptim1 import ExactAlgorithmCplexForPaperOptim1
+from corankco.algorithms.exact.exactalgorithmpulp import ExactAlgorithmPulp
 
 
 class ParCons(RankAggAlgorithm, PairwiseBasedAlgorithm):
@@ -108,7 +110,12 @@ class ParCons(RankAggAlgorithm, PairwiseBasedAlgorithm):
                     res.extend(cons_ext)
                     optimal = False
                 else:
-                    cons_ext = ExactAlgorithmCplexForPaperOptim1().compute_consensus_rankings(
+                    # the free solver is used if cplex is not installed
+                    if exactalgorithmcplex.cplex is None:
+                        exact_alg = ExactAlgorithmPulp()
+                    else:
+                        exact_alg = ExactAlgorithmCplexForPaperOptim1()
+                    cons_ext = exact_alg.compute_consensus_rankings(
                         sub_problem, scoring_scheme, True).consensus_rankings[0]
                     res.extend(cons_ext)
 
